@@ -26,10 +26,15 @@ def plan(tier, seed):
 def one(ctx, rng, cands, spec, want, k=1, deep=False):
     if deep:
         # one id pushed through > 1024 incarnations (labels past 'amj'), everything on very few ids
-        st = streams.build(rng, cands, k=1, n_each=3600, tagged=False, opts={'hot': 1.0, 'reuse_bias': 1.0, 'prompt_delete': 1.0, 'first': 'get_registry'})
+        # (quick: past 4096 incarnations; thorough: past 32768 - a client rendering at 60 fps gets there in nine minutes)
+        st = streams.build(rng, cands, k=1, n_each=13400 if ctx.tier == 'quick' else 100500, tagged=False,
+                           opts={'hot': 1.0, 'reuse_bias': 1.0, 'prompt_delete': 1.0, 'first': 'get_registry', 'equal_times': 0.0, 'big_gaps': 0.0})
     else:
         st = streams.build(rng, cands, k=k, n_each=tuple(spec['len']), tagged=(rng.random() < 0.3) if k == 1 else True,
-                           opts={'dead_mention': rng.choice([0.15, 0.5]), 'tie_prefix': rng.choice([0, 0, 0, 6, 15, 40])})
+                           opts={'dead_mention': rng.choice([0.15, 0.5]), 'tie_prefix': rng.choice([0, 0, 0, 6, 15, 40]),
+                                 # the printed clock may step backwards (32-bit wrap, two captures joined): attribution does not depend on it
+                                 'backsteps': rng.choice([0, 0, 0, 0.04, 0.15]), 'wrap': rng.random() < 0.1},
+                           t0=(2 ** 32 - rng.randint(1, 2 * 10 ** 6)) if rng.random() < 0.08 else None)
     s, probs = objcheck.run_stream(ctx, st, want=want)
     ctx.ev(len(st['entries']))
     stats = {}
